@@ -488,6 +488,8 @@ pub struct SymBattery {
     pub ident_hs_x: Vec<f64>, // mul_Hs x after set_identity_scaling() on the cone scaled above
     pub ident_block: Vec<f64>, // get_Hs after set_identity_scaling()
     pub ident_expanded_x: Vec<f64>, // as expanded_x, after set_identity_scaling()
+    pub unit_s: Vec<f64>,     // unit_initialization(z, s) into buffers that hold other values (as at the start of a second solve)
+    pub unit_z: Vec<f64>,
 }
 
 /// Evaluate every scaling / Jordan-algebra operation of one symmetric cone (nonnegative, second-order, PSD triangle) at the
@@ -571,6 +573,11 @@ pub fn sym_cone_battery(
             let mut blk = vec![0.0; nb];
             c.get_Hs(&mut blk);
             out.ident_block = blk;
+            // (the buffers hold the values of an earlier solve: x and y)
+            let (mut uz, mut us) = (x.to_vec(), y.to_vec());
+            c.unit_initialization(&mut uz, &mut us);
+            out.unit_z = uz;
+            out.unit_s = us;
         }};
     }
     // (the diagonal part is read through get_Hs, as the KKT assembly reads it; the rank-two part from the cone's u, v, eta)
